@@ -605,6 +605,35 @@ func TestVerifC08(t *testing.T) {
 				// both in the call, the requester leaves the room (others stay) and comes back: it is not in the call any more
 				hdOp{K: "api", B: 0, SignAs: 0, R: 1, Api: "incall", RawRS: true, Users: []hdApiUser{{RS: 2, InCall: 7}, {RS: 1, InCall: 7}}}, req(2, 1, "video"),
 				hdJoinOp(2, 0, 0), hdJoinOp(2, 1, 2), req(2, 1, "screen"), hdJoinOp(2, 2, 2), hdJoinOp(2, 1, 2), req(2, 1, "screen"))
+			// the decision table: every message kind that is decided by a publish permission (an offer with an audio
+			// section, a video section, both, with sections on port 0, for the screen; a candidate for the own stream,
+			// before and after the stream is published) x every stream type x every permission set - given by the join
+			// reply and, after everything was granted in between, by the participants API
+			cand := func(c int, stream string) hdOp {
+				return hdOp{K: "media", C: c, Mk: "candidate", Stream: stream, To: hdToSession(c)}
+			}
+			for _, set := range [][]int{{4}, {}, {0}, {1}, {0, 1}, {3}, {2}, {3, 2}, {0, 2}, {1, 2, 4}, {0, 1, 2, 3, 4, 5}} {
+				table := func() []hdOp {
+					var ops []hdOp
+					for _, st := range []string{"screen", "video", "audio"} {
+						ops = append(ops, cand(1, st))
+						if st == "screen" {
+							ops = append(ops, offer(1, st, 0), offer(1, st, 3))
+						} else {
+							ops = append(ops, offer(1, st, 1), offer(1, st, 2), offer(1, st, 3), offer(1, st, 8), offer(1, st, 16+1))
+						}
+						ops = append(ops, cand(1, st))
+					}
+					// a candidate for somebody else's stream is not a matter of publish permissions
+					return append(ops, cand(2, "screen"), cand(2, "video"),
+						hdOp{K: "media", C: 1, Mk: "candidate", Stream: "screen", To: hdToSession(2)}, hdOp{K: "media", C: 1, Mk: "candidate", Stream: "video", To: hdToSession(2)})
+				}
+				ops := []hdOp{joinP(1, 1, 1, set...), hdJoinOp(2, 1, 2), incall}
+				ops = append(ops, table()...)
+				ops = append(ops, perms(1, 0, 1, 2, 3, 4, 5), cand(1, "screen"), cand(1, "video"), offer(1, "screen", 0), offer(1, "video", 3), cand(1, "screen"), cand(1, "video"), perms(1, set...))
+				ops = append(ops, table()...)
+				add(false, ops...)
+			}
 			return out
 		}})
 }
